@@ -38,6 +38,7 @@ func vCall20(thread *starlark.Thread, fn starlark.Value, args starlark.Tuple, kw
 
 // guarantee checked at every release: entries are only ever added, never replaced or removed
 var vSeenK starlark.Value
+var vPresentBefore int
 
 func vCheckMonotone() {
 	cur, present := vC.entries["k"]
@@ -86,14 +87,28 @@ func VHarnessC20() {
 	vC = &cache{entries: map[string]starlark.Value{"j": starlark.String("other key")}}
 	vCallValue = starlark.String("mine")
 	vCallFails = vNondetBool("callable-fails")
+	// the cache also holds an arbitrary number (up to 2^31) of entries under other keys
+	pad := int(vNondetU32("other-entries"))
+	vAssume(pad < 1<<31)
+	vMapPad(vC.entries, pad)
+	before := len(vC.entries)
+	vPresentBefore = 0
 	if vNondetBool("present-before") {
 		vC.entries["k"] = vOtherValue
+		vPresentBefore = 1
 	}
 	v, err := vC.once(nil, nil, "k", vCallable{})
 	stored, present := vC.entries["k"]
 	vAssert(vCalls <= 1, "at-most-one-call")
 	oj, okj := vC.entries["j"]
-	vAssert(okj && oj == starlark.Value(starlark.String("other key")) && len(vC.entries) <= 2, "other-keys-untouched")
+	grown := 0
+	if present {
+		grown = 1
+	}
+	vAssert(okj && oj == starlark.Value(starlark.String("other key")), "other-keys-untouched")
+	// the explicit key j is kept and the entry count is the count before plus at most k itself: no
+	// entry under any other key was dropped (a new, smaller map would lose the abstract entries)
+	vAssert(len(vC.entries) == before+grown, "no-entry-dropped")
 	vAssert(vHeld() == 0, "no-lock-held-on-return")
 	if vCalls == 0 {
 		vAssert(err == nil && v == vOtherValue && present && stored == vOtherValue, "cached-value-returned-untouched")
